@@ -55,13 +55,21 @@ CLAIMED["C01"] = dict(
 CLAIMED["C09"] = dict(
     text="Proof: the model's flagged set is exactly the junctions with no path of non-closed links to a tank or reservoir (reachability "
          "closure checked closed; soundness by induction on iterations, completeness by induction on paths), so a connected junction is "
-         "never flagged -- for every topology incl. parallel links in either direction. Tie decided inside coqc: at every solve of real "
+         "never flagged -- for every topology incl. parallel links in either direction; the executable model is total (its fuel always suffices). "
+         "The simulator's own data structure is modelled too (C09/Graph.v: the CSR connectivity matrix with one entry per node pair, its "
+         "construction with summed duplicates and the pass over pairs with several links, its incremental update from the control change "
+         "tracker): PROVED that after construction and after every update of ANY history of control actions the entry of a pair is non-zero "
+         "exactly when one of its links is not closed, i.e. the matrix is the adjacency relation of the reachability theorem (induction over "
+         "histories with the tracker invariant). Ties decided inside coqc: the real CSR data after _initialize_internal_graph and after every "
+         "_update_internal_graph (read through the simulator's own index map, fed with the tracker's real change list) equals the model's "
+         "entries; at every solve of real "
          "runs the junction and link _is_isolated flags equal the model's sets computed from the link statuses of that moment, and at every "
          "reported step demand/pressure/flow of the isolated junctions and links are zero; histories come from controls/rules/CVs.",
     ref="DESIGN.md section 5 C09",
-    note="Trusted: Coq kernel (axiom-free theorems); tracing wrapper; freshly compiled _network_isolation extension. Modelled not verified: "
-         "the CSR matrix, the parallel-link bookkeeping and the incremental update are not modelled separately -- they are covered by comparing "
-         "their outcome with the from-scratch model at every solve of every generated history (so the tie is bounded by the generator).",
+    note="Trusted: Coq kernel (axiom-free theorems); tracing wrappers; freshly compiled _network_isolation extension. Modelled not verified: "
+         "the C++ breadth-first search itself (its outcome is compared with the model at every solve), scipy's CSR layout (read through the "
+         "simulator's own index map), self-loop links (not generated). Hypothesis of the history theorem: every status change between two "
+         "updates is made by a control action the tracker observes (checked per traced update).",
     technique="Coq proof (graph reachability, induction) + exact differential check of isolation flags at every solve")
 
 CLAIMED["C04"] = dict(
@@ -79,8 +87,9 @@ CLAIMED["C04"] = dict(
     ref="DESIGN.md section 5 C04, Appendix A",
     note="Trusted: Coq kernel (axiom-free); harness building the same configuration through the API and as a Gallina term. Modelled not "
          "verified: sim_time as a float holding integers; the hydraulic solve (irrelevant to time conditions; trivial network). Partial: the "
-         "whole-run theorems (a partial step is inserted at exactly t, value persists, highest priority wins across the loop) are established "
-         "by exact trace equality on generated configurations plus the lemma-level proofs, not by a closed proof over the loop.",
+         "closed whole-run proofs cover one AT TIME control, one TIME >= rule and two same-instant controls of different priority; for arbitrary "
+         "SETS of controls and rules the whole-run behaviour is established by exact trace equality on generated configurations plus the "
+         "lemma-level proofs (no general functional specification of the loop is proved).",
     technique="Coq proof (arithmetic/case analysis on a transcribed scheduler, vm_compute witnesses) + exact trace correspondence")
 
 CLAIMED["C20"] = dict(
@@ -88,12 +97,14 @@ CLAIMED["C20"] = dict(
          "of 24 h and every pattern period; the mean over any whole number of periods equals the mean over one; the nearest-entry table "
          "lookup minimises the distance; the metric's expected demand equals the demand delivered in DD mode when evaluated at "
          "t + pattern_start (and differs at t when pattern_start != 0: known finding). The remaining metrics (expected demand per "
-         "category and multiplier, WSA, Todini, MRI, pump power/energy/cost, pipe cost/GHG lookups) are definitional formulas in the "
+         "category and multiplier, WSA, Todini, MRI, pump power/energy/cost, the whole annual network cost -- tanks, pipes, pumps, PRVs, each "
+         "charged the closest entry of a user table given in ANY row order -- and the pipe GHG lookups) are definitional formulas in the "
          "model; they are tied, not proved: every value the implementation returns on generated networks / real result tables equals the "
          "model's exact rational evaluation within 1e-9 (decided by vm_compute inside coqc).",
     ref="DESIGN.md section 5 C20",
     note="Trusted: Coq kernel (axiom-free); harness extracting inputs from wntr objects. Modelled not verified: pandas float arithmetic "
-         "(1e-9 relative), default cost tables (passed explicitly), head-pump maximum-power formula, tank_capacity, population, entropy.",
+         "(1e-9 relative), default cost tables (passed explicitly), pi and the head-pump maximum-power formula (exp/log; computed by the harness "
+         "from the fitted coefficients and passed as an input), tank_capacity, population, entropy.",
     technique="Coq proof (number theory, periodic sums, argmin) + exact-rational differential check of every metric")
 
 CLAIMED["C16"] = dict(
